@@ -125,6 +125,7 @@ struct Kernel {
   AllocStats alloc;
   bool alloc_track = true;
   uint64_t syscalls = 0;
+  int pending_send_errno = 0;    // set by the world while it handles a datagram: the send call that produced it fails with this errno
   bool icmp_recv_only = false;   // a pending ICMP error is reported by recv()/recvmsg() only, never by send() (worlds whose oracle counts wire transmissions)
   int exit_called = 0;
   int exit_code = 0;
